@@ -119,8 +119,35 @@ def run(tier, seed):
                     continue          # would touch the file system, which the model does not cover
                 errprogs.append(f"({name} {' '.join(args)})")
     errprogs += ["(define 'zz 1 \"\") (define 'zz 2 \"\")", "(last nil)", "(read-simple \"(\")", "(unzip-list '(1))", "(let (a) a)", "(f)", "((lambda (x)))", "(lambda (&) 1)", "(lambda (x & y z) 1)"]
-    sets = [ProgramSet("nests", progs), ProgramSet("errors", errprogs), ProgramSet("dictated", dictated)]
+    # signals and aborts raised by a MACRO BODY while a form is expanded at run time (eval / macroexpand / load-all of
+    # quoted forms inside traps): the handler sees exactly the value signalled, an abort passes every trap
+    exact = []      # (program, expected printed result of the last form, or "abort")
+    payloads = [("'plain", "plain"), ("(list 'kind 'k 'source 's)", "(kind k source s)"), ("(list 1 2 3)", "(1 2 3)"), ("5", "5"), ("(list 'a 1)", "(a 1)"), ("\"text\"", "\"text\"")]
+    for pe, shown in payloads:
+        mdef = f"(define 'm-sig (macro (& xs) (signal {pe})) \"\") (define 'f-sig (lambda (& xs) (signal {pe})) \"\")"
+        for runner in ["(eval '(m-sig 1))", "(macroexpand '(m-sig 1))", "(eval '(list 1 (m-sig)))", "(eval '((lambda (x) (m-sig x)) 1))", "(load-all \"(m-sig)\" 'stdin)", "(f-sig 1)", "(eval '(when t (m-sig)))"]:
+            exact.append((f"{mdef} (print (eval (trap {runner} *trapped-signal*)))", shown))
+            exact.append((f"{mdef} (print (eval (trap (eval (trap {runner} (signal *trapped-signal*))) *trapped-signal*)))", shown))
+    for runner in ["(eval '(m-abort))", "(macroexpand '(m-abort))", "(eval '(list 1 (m-abort)))", "(load-all \"(m-abort)\" 'stdin)", "(eval '(when t (m-abort)))", "(eval '(m-abort-inner))"]:
+        mdef = "(define 'm-abort (macro (& xs) (abort)) \"\") (define 'm-abort-inner (macro () (eval (trap (abort) 'swallowed))) \"\")"
+        exact.append((f"{mdef} (eval (trap (eval (trap {runner} 'inner)) 'outer))", "abort"))
+        exact.append((f"{mdef} (try {runner} (catch-all (lambda (e) 'caught)))", "abort"))
+    sets = [ProgramSet("nests", progs), ProgramSet("errors", errprogs), ProgramSet("dictated", dictated), ProgramSet("macro_bodies", [p for p, _ in exact])]
     run_sets(rep, sets)
+    for (prog, want), r, a in zip(exact, sets[3].parsed, sets[3].answers):
+        st, d = last_result(r)
+        if want == "abort":
+            good = st == "abort"
+            got = st
+        else:
+            t = result_tree(r)
+            got = dump.text_of(t) if (t is not None and st == "ok") else st
+            good = got == want
+        if not good:
+            rep.violation(f"a {'n abort' if want == 'abort' else ' signal'} raised by a macro body during run-time expansion did not arrive unchanged: expected {want}, observed {got}: {prog}",
+                          {"program": prog, "expected": want, "observed": a[:400]})
+            if len(rep.violations) >= 4:
+                break
     # monitor: the signal of each inner handler reaches the next enclosing trap; the outermost handler's value is the result
     for i, r in enumerate(sets[2].parsed):
         st, d = last_result(r)
